@@ -376,7 +376,7 @@ func TestVerifC17Chain(t *testing.T) {
 			Path     string `json:"path"`
 			Cached   bool   `json:"cached_name"`
 			Declined bool   `json:"strict_declined_shape"`
-			Burst    int    `json:"burst"` // > 0: that many high-amplification queries instead of one query
+			Burst    int    `json:"burst"`      // > 0: that many high-amplification queries instead of one query
 			Slab     bool   `json:"reuse_slab"` // carried by the configuration's long-lived engine job (after the probes before it)
 		} `json:"probes"`
 	}
@@ -763,7 +763,16 @@ func TestVerifC17Chain(t *testing.T) {
 		zone := fmt.Sprintf("v%d.c17.test.", vc)
 		var cidrs []string
 		var good []netip.Prefix
-		if r.Intn(4) != 0 {
+		// every second configuration is a split-horizon layout: several views over DISJOINT networks of both families, each
+		// answering every name of the zone with its own records, behind an open or an all-covering list - neighbouring
+		// clients then differ in the view that must answer them
+		disjoint := vc%2 == 0
+		if disjoint {
+			if r.Intn(2) == 0 {
+				cidrs = []string{"10.0.0.0/8", "2001:db8::/32"}
+				good = []netip.Prefix{netip.MustParsePrefix(cidrs[0]), netip.MustParsePrefix(cidrs[1])}
+			}
+		} else if r.Intn(4) != 0 {
 			for i := 1 + r.Intn(2); i > 0; i-- {
 				p := vC17Prefix(r)
 				good = append(good, p)
@@ -783,12 +792,18 @@ func TestVerifC17Chain(t *testing.T) {
 		var vcoq []string
 		var vdesc []any
 		var vnets []netip.Prefix
-		for vi := 0; vi < 1+r.Intn(3); vi++ {
+		nv := 1 + r.Intn(3)
+		if disjoint {
+			nv = 2 + r.Intn(2)
+		}
+		for vi := 0; vi < nv; vi++ {
 			var nets []string
 			var pc []string
 			for j := 1 + r.Intn(2); j > 0; j-- {
 				var pf netip.Prefix
 				switch {
+				case disjoint:
+					pf = netip.MustParsePrefix([]string{fmt.Sprintf("10.%d.0.0/16", vi+1), fmt.Sprintf("2001:db8:%x::/48", vi+1)}[j%2])
 				case len(good) > 0 && r.Intn(2) == 0:
 					pf = good[r.Intn(len(good))]
 					if r.Intn(2) == 0 && pf.Bits() > 8 {
@@ -805,11 +820,17 @@ func TestVerifC17Chain(t *testing.T) {
 			}
 			var answers, rcoq, rdesc []string
 			nrec := r.Intn(4)
+			if disjoint {
+				nrec = 2 + r.Intn(2)
+			}
 			for k := 0; k < nrec; k++ {
 				o := owners[r.Intn(len(owners))]
+				if disjoint && k < 2 {
+					o = owners[k] // "*.zone" and "host.zone": the view has an answer for every name of the zone
+				}
 				ty := dns.TypeA
 				line := fmt.Sprintf("%s 60 IN A 198.18.%d.%d", o, vi, k)
-				if r.Intn(5) == 0 {
+				if !(disjoint && k < 2) && r.Intn(5) == 0 {
 					ty = dns.TypeAAAA
 					line = fmt.Sprintf("%s 60 IN AAAA 2001:db8::%x:%x", o, vi, k)
 				}
@@ -835,6 +856,74 @@ func TestVerifC17Chain(t *testing.T) {
 			pcoq = append(pcoq, fmt.Sprintf("mk_prefix %v %s %d", g.Addr().Is4(), vC17Big(g.Addr()).String(), g.Bits()))
 		}
 		resolved := map[string]bool{}
+		probe := func(src netip.Addr, ip net.IP, port int, path int, onSlab bool, qname string, qtype uint16, tag string) {
+			q := new(dns.Msg)
+			q.SetQuestion(qname, qtype)
+			q.SetEdns0(1232, false)
+			key := strings.ToLower(qname) + "/" + dns.TypeToString[qtype]
+			cached := resolved[key]
+			before := witness.calls
+			var remote string
+			var replied bool
+			pathName := vC17Paths[path]
+			if onSlab && (path == 0 || path == 3 || path == 4) {
+				remote, replied, _, _ = vC17ServeSlab(s, slabs, path, ip, port, q)
+				pathName += " (long-lived engine job)"
+			} else {
+				remote, replied = vC17Serve(s, path, ip, port, q)
+			}
+			delta := witness.calls - before
+			if delta > 0 {
+				resolved[key] = true
+			}
+			answered := "None"
+			goFail := ""
+			view := -1
+			var served []string
+			if replied && delta == 0 && vC17LastReply != nil {
+				for _, rr := range vC17LastReply.Answer {
+					vi, ri := -1, -1
+					switch x := rr.(type) {
+					case *dns.A:
+						if b := x.A.To4(); b != nil && b[0] == 198 && b[1] == 18 {
+							vi, ri = int(b[2]), int(b[3])
+						}
+					case *dns.AAAA:
+						if x.AAAA[0] == 0x20 && x.AAAA[1] == 0x01 && x.AAAA[2] == 0x0d && x.AAAA[3] == 0xb8 {
+							vi, ri = int(x.AAAA[13]), int(x.AAAA[15])
+						}
+					}
+					if vi < 0 {
+						continue // not a view's record (the resolver stand-in's answer out of the cache)
+					}
+					if view >= 0 && vi != view {
+						goFail = "one reply carries records of two views"
+					}
+					view = vi
+					served = append(served, fmt.Sprintf("%d%%nat", ri))
+				}
+				if view >= 0 {
+					answered = fmt.Sprintf("(Some (%d%%nat, [%s]))", view, strings.Join(served, "; "))
+				}
+			}
+			k := "chainview-denied"
+			switch {
+			case view >= 0:
+				k = "chainview-answered-by-view"
+			case replied && delta > 0:
+				k = "chainview-resolved"
+			case replied:
+				k = "chainview-from-cache"
+			}
+			b, _ := json.Marshal(map[string]any{
+				"k":          k + tag,
+				"coq":        fmt.Sprintf("CaseChainView %d [%s] [%s] %s %d %s %d %v %s %v %d", len(cidrs), strings.Join(pcoq, "; "), strings.Join(vcoq, "; "), remote, path, coqBytes(qname), qtype, cached, answered, replied, delta),
+				"go_fail":    goFail,
+				"nontrivial": true,
+				"desc":       map[string]any{"accesslist": cidrs, "views": vdesc, "src": src.String(), "src_ip_bytes": len(ip), "src_port": port, "path": pathName, "question": qname + " " + dns.TypeToString[qtype], "resolved_before": cached, "answered_by_view": answered, "replied": replied, "resolver_calls": delta},
+			})
+			f.Write(append(b, '\n'))
+		}
 		for pr := 0; pr < 14; pr++ {
 			var src netip.Addr
 			pool := vnets
@@ -880,72 +969,75 @@ func TestVerifC17Chain(t *testing.T) {
 				if path == 8 { // a transport that declares the request internal goes past the cache's lookup: only names asked once
 					qname = fmt.Sprintf("q%d.%s", qn, []string{zone, "elsewhere.test."}[r.Intn(2)])
 				}
-				q := new(dns.Msg)
-				q.SetQuestion(qname, qtype)
-				q.SetEdns0(1232, false)
-				key := strings.ToLower(qname) + "/" + dns.TypeToString[qtype]
-				cached := resolved[key]
-				before := witness.calls
-				var remote string
-				var replied bool
-				pathName := vC17Paths[path]
-				if (path == 0 || path == 3 || path == 4) && r.Intn(2) == 0 {
-					remote, replied, _, _ = vC17ServeSlab(s, slabs, path, ip, port, q)
-					pathName += " (long-lived engine job)"
-				} else {
-					remote, replied = vC17Serve(s, path, ip, port, q)
-				}
-				delta := witness.calls - before
-				if delta > 0 {
-					resolved[key] = true
-				}
-				answered := "None"
-				goFail := ""
-				view := -1
-				var served []string
-				if replied && delta == 0 && vC17LastReply != nil {
-					for _, rr := range vC17LastReply.Answer {
-						vi, ri := -1, -1
-						switch x := rr.(type) {
-						case *dns.A:
-							if b := x.A.To4(); b != nil && b[0] == 198 && b[1] == 18 {
-								vi, ri = int(b[2]), int(b[3])
-							}
-						case *dns.AAAA:
-							if x.AAAA[0] == 0x20 && x.AAAA[1] == 0x01 && x.AAAA[2] == 0x0d && x.AAAA[3] == 0xb8 {
-								vi, ri = int(x.AAAA[13]), int(x.AAAA[15])
-							}
-						}
-						if vi < 0 {
-							continue // not a view's record (the resolver stand-in's answer out of the cache)
-						}
-						if view >= 0 && vi != view {
-							goFail = "one reply carries records of two views"
-						}
-						view = vi
-						served = append(served, fmt.Sprintf("%d%%nat", ri))
+				probe(src, ip, port, path, r.Intn(2) == 0, qname, qtype, "")
+			}
+		}
+		// the engines' long-lived jobs inside the views configuration: the UDP slab (peer address rewritten in place over its
+		// scratch array) and the TCP slab carry a run of packets from clients of DIFFERENT views, of no view, and the first
+		// one again, back to back, all asking names the views hold records for: every packet is answered by the view ITS
+		// source belongs to (or resolved), whatever the handlers saw on that slab before
+		{
+			// candidates: an address inside every view network, admitted list entries, addresses in no view; the run is ordered
+			// per family (the slab's scratch view keeps its length within a family) so that back-to-back clients differ in
+			// the view that contains them (Go-side containment here only steers the generator; it judges nothing)
+			decide := func(a netip.Addr) int {
+				if len(cidrs) > 0 {
+					ok := false
+					for _, g := range good {
+						ok = ok || g.Contains(a)
 					}
-					if view >= 0 {
-						answered = fmt.Sprintf("(Some (%d%%nat, [%s]))", view, strings.Join(served, "; "))
+					if !ok {
+						return -2 // not admitted: never reaches views
 					}
 				}
-				k := "chainview-denied"
-				switch {
-				case view >= 0:
-					k = "chainview-answered-by-view"
-				case replied && delta > 0:
-					k = "chainview-resolved"
-				case replied:
-					k = "chainview-from-cache"
+				for vi, vc := range vcfg {
+					for _, e := range vc.Networks {
+						if pf, err := netip.ParsePrefix(e); err == nil && pf.Contains(a) {
+							return vi
+						}
+					}
 				}
-				b, _ := json.Marshal(map[string]any{
-					"k":          k,
-					"coq":        fmt.Sprintf("CaseChainView %d [%s] [%s] %s %d %s %d %v %s %v %d", len(cidrs), strings.Join(pcoq, "; "), strings.Join(vcoq, "; "), remote, path, coqBytes(qname), qtype, cached, answered, replied, delta),
-					"go_fail":    goFail,
-					"nontrivial": true,
-					"desc":       map[string]any{"accesslist": cidrs, "views": vdesc, "src": src.String(), "src_ip_bytes": len(ip), "src_port": port, "path": pathName, "question": qname + " " + dns.TypeToString[qtype], "resolved_before": cached, "answered_by_view": answered, "replied": replied, "resolver_calls": delta},
-				})
-				f.Write(append(b, '\n'))
+				return -1
+			}
+			var cands []netip.Addr
+			for _, pf := range vnets {
+				cands = append(cands, pf.Addr())
+				if pf.Addr().Is4() && pf.Bits() <= 24 {
+					b := pf.Masked().Addr().As4()
+					b[3] = byte(1 + r.Intn(200))
+					cands = append(cands, netip.AddrFrom4(b))
+				}
+			}
+			for _, g := range good {
+				cands = append(cands, g.Addr(), g.Masked().Addr())
+			}
+			cands = append(cands, netip.MustParseAddr("198.51.100.77"), netip.MustParseAddr("2001:db8:ffff::9"), netip.MustParseAddr("10.200.0.9"), netip.MustParseAddr("2001:db8:0:1::9"))
+			var run []netip.Addr
+			for _, v4 := range []bool{true, false} {
+				var fam []netip.Addr
+				for _, a := range cands {
+					if a.Is4() == v4 && decide(a) != -2 {
+						fam = append(fam, a)
+					}
+				}
+				last := -3
+				for n := 0; n < 5 && len(fam) > 0; n++ {
+					pick := r.Intn(len(fam))
+					for k := 0; k < len(fam); k++ { // the next client is in another view than the one before it, if there is one
+						if decide(fam[(pick+k)%len(fam)]) != last {
+							pick = (pick + k) % len(fam)
+							break
+						}
+					}
+					run = append(run, fam[pick])
+					last = decide(fam[pick])
+				}
+			}
+			for i, src := range run {
+				ip := net.IP(src.AsSlice())
+				qn++
+				qname := []string{"host." + zone, fmt.Sprintf("q%d.%s", qn, zone), "x.sub." + zone}[r.Intn(3)]
+				probe(src, ip, 1024+r.Intn(60000), []int{0, 0, 3, 0, 0, 3, 4}[(i+vc)%7], true, qname, dns.TypeA, "-slab-run")
 			}
 		}
 	}
